@@ -70,7 +70,7 @@ def gen_cases(tier, seed):
                 b = min(len(script) - 1, a + rng.randrange(1, 5))
                 script[a], script[b] = script[b], script[a]
         cases.append({"t": "rand", "n": n, "seg": seg, "tail": tail, "imm": rng.random() < 0.5, "cap": rng.choice([1, 1, 2, 3, 5, 13]), "crc": rng.random() < 0.3,
-                      "idw": rng.choice([1, 2, 4]), "script": script, "policy": rng.choice(["full", "full", "partial", "twice", "late", "mixed", "none"]),
+                      "idw": rng.choice([1, 2, 4]), "script": script, "policy": rng.choice(["full", "full", "partial", "twice", "late", "mixed", "none"]), "warmup": rng.random() < 0.3,
                       "seed": seed * 1_000_003 + i})
     return cases
 
@@ -103,6 +103,27 @@ def run_case(case):
             j = int(it[2:])
             return fd_raw(j * seg, min(seg, size - j * seg))
 
+        if case.get("warmup"):
+            # an earlier acknowledged transaction of the same remote entity on this receiver, with another PDU overhead (CRC flag, sequence
+            # number width) and a larger max_packet_len in the MIB; it runs through the deferred procedure and completes.  Not judged.
+            w.rc_src_at_dst.max_packet_len = 200
+            tcw = pdugen.conf(1, 2, 77, idw=idw, seqw=1, mode="ack", crc=not crc)
+            wd = bytes(range(12))
+            for rawp in (pdugen.raw("MD", tcw, {"size": 12, "cks": "crc32", "src_name": w.src_path.as_posix(), "dst_name": w.dst_req_path.as_posix()}),
+                         pdugen.raw("FD", tcw, {"offset": 0, "data": wd[0:4]}), pdugen.raw("EOF", tcw, {"size": 12, "cksum": models.checksum("crc32", wd)}), None,
+                         pdugen.raw("FD", tcw, {"offset": 4, "data": wd[4:8]}), pdugen.raw("FD", tcw, {"offset": 8, "data": wd[8:12]}), None, None,
+                         pdugen.raw("ACK_FIN", tcw), None):
+                try:
+                    D.sm(None if rawp is None else wire.parse(rawp), None if rawp is None else {"kind": wire.kind_of(rawp)})
+                except PROTO_EXC:
+                    pass
+                D.outbox.clear()
+            if D.h.state.name != "IDLE":
+                D.reset()
+                D.drain()
+                D.outbox.clear()
+            w.rc_src_at_dst.max_packet_len = maxpkt  # the user re-tunes the MIB entry before the next transaction
+            obs["runs_after_warmup_transaction"] = 1
         pending = [item_raw(it) for it in case["script"]]
         eof_in_script = "EOF" in case["script"]
         # ---- monitor state ----------------------------------------------------------------------
@@ -156,6 +177,18 @@ def run_case(case):
                 viol.append({"clause": "state-machine-raised-internal-error", "etype": type(e).__name__, "msg": str(e)[:150], "pdu": kind, "step": before[2]})
                 break
             after = (D.h.deferred_lost_segment_procedure_active, D.h.nak_activity_counter, D.h.step.name)
+            # structural invariant of the live lost-segment bookkeeping at the quiescent point after every call (C18's invariant, observed in situ)
+            try:
+                segs = list(D.h._params.acked_params.lost_seg_tracker.lost_segments.items())
+            except AttributeError:
+                segs = None
+                obs["tracker_not_observable"] = 1
+            if segs is not None:
+                obs["tracker_states_checked"] = obs.get("tracker_states_checked", 0) + 1
+                bad = [(a, b) for a, b in segs if not (0 <= a < b)] or [x for x, y in zip(segs, segs[1:]) if not (x[0] < y[0] and x[1] <= y[0])]
+                if bad:
+                    viol.append({"clause": "lost-segment-bookkeeping-not-ascending-disjoint-nonempty", "ranges": segs[:8], "after": kind, "step": after[2]})
+                    break
             was_busy = was_busy or D.h.state.name == "BUSY" or before[2] != "IDLE"
             evs = w.log.events[mark:]
             fdd = wire.describe(raw) if kind == "FD" else None
@@ -333,7 +366,7 @@ def run_case(case):
         if finished is not None and finished[0] == "NAK_LIMIT_REACHED":
             obs["runs_ending_in_nak_limit"] = 1
         for v in viol:
-            v["case"] = {k: case[k] for k in ("n", "seg", "tail", "imm", "cap", "crc", "idw", "policy", "seed")}
+            v["case"] = {k: case.get(k) for k in ("n", "seg", "tail", "imm", "cap", "crc", "idw", "policy", "seed", "warmup")}
             v["script"] = case["script"][:30]
             v["max_packet_len"] = maxpkt
         sig = case if naks_judged else None
@@ -344,4 +377,4 @@ def run_case(case):
 
 
 REQUIRED = {"naks_judged": 1000, "deferred_sequences_judged": 500, "multi_pdu_sequences": 100, "reissued_sequences_judged": 50, "metadata_requests_judged": 100,
-            "segment_requests_judged": 1000, "completions_after_nothing_missing": 300, "immediate_naks": 100, "sequences_filling_last_pdu_exactly": 20}
+            "segment_requests_judged": 1000, "completions_after_nothing_missing": 300, "immediate_naks": 100, "sequences_filling_last_pdu_exactly": 20, "runs_after_warmup_transaction": 100}
